@@ -65,6 +65,6 @@ Print Assumptions C20_forest_guards_pure_strong.
 
 Example C20_nonvacuous :
   let cfg := {| assertions := true; is_node := true |} in
-  let ops := [SetChildren 0 CTuple [ANode 1; ANode 2] NoFault; SetParent 3 (ANode 2) NoFault; Sort 0 [0; 2; 1; 0] true] in
+  let ops := [SetChildren 0 CTuple [ANode 1; ANode 2] NoFault; SetParent 3 (ANode 2) NoFault; Sort 0 [Some 0; Some 2; Some 1; Some 0] true] in
   all_ok (with_assert cfg true) (init 4 (fun i => [N.of_nat i]) (fun _ => [47]%N)) ops = true.
 Proof. vm_compute. reflexivity. Qed.
